@@ -494,6 +494,10 @@ type Env struct {
 	// bytes, i.e. possibly before the peer's reader has appended its "V".
 	RetGate chan struct{}
 
+	// SnapshotLog, when set by a scenario, is the rendered log to compare (taken before the scenario
+	// lets later, uncompared events happen).
+	SnapshotLog string
+
 	hookMu         sync.Mutex
 	afterWriteLock func() // run once inside writeFrame, after the write lock is taken (existing test seam)
 }
